@@ -382,6 +382,12 @@ def term_str(t, depth=0):
         return "if %s {%s} else {%s}" % (term_str(t[1]), term_str(t[2]), term_str(t[3]))
     if k == "switch":
         return "match %s {%s, _ => %s}" % (term_str(t[1]), ", ".join("%s => %s" % (v, term_str(x)) for v, x in t[2]), term_str(t[3]))
+    if k == "agg":
+        return "%s{%s}" % (t[1].rsplit("::", 2)[-1] if "::" in t[1] else t[1], ", ".join(term_str(x) for x in t[2]))
+    if k == "pair":
+        return "(%s, %s)" % (term_str(t[1]), term_str(t[2]))
+    if not isinstance(k, str):
+        return "(" + ", ".join(term_str(x) for x in t) + ")"
     return k + "(" + ", ".join(term_str(x) for x in t[1:] if isinstance(x, tuple)) + ")"
 
 
